@@ -15,7 +15,7 @@ ASSUMPTIONS = ["bond graph = written bonds + constraints + bond edges of the app
 CASE_TIMEOUT = 60
 WALL = {"quick": 900, "thorough": 7200}
 REQUIRED = {"pairs_checked": 20000, "mixed_cases": 150, "uniform_cases": 150, "generated_exclusions_seen": 200,
-            "explicit_block_exclusions": 20}
+            "explicit_block_exclusions": 20, "three_level_cases": 80, "explicit_atom_id_links": 60}
 
 
 def plan(tier, seed):
@@ -29,8 +29,8 @@ def setup():
 
 def run_case(cid, rng, workdir):
     res = new_result()
-    case = paramcase.build(rng, profile="sensible", nmin=2, nmax=7, max_links=4,
-                           layouts=["ff", "ff", "ff+itp", "itp+ff", "itp_dangling"])
+    case = paramcase.build(rng, profile="sensible", nmin=2, nmax=7, max_links=4, three_levels=True, p_uniform=0.3,
+                           p_explicit=0.25, layouts=["ff", "ff", "ff+itp", "itp+ff", "itp_dangling"])
     # explicit exclusions inside .ff blocks (pure .ff layouts only: an .itp finalisation would turn them into edges)
     if case["layout"] == "ff" and rng.random() < 0.4:
         _add_block_exclusions(rng, case)
@@ -55,6 +55,9 @@ def run_case(cid, rng, workdir):
     explicit = sum(cnt for cnt in ref["inter"].get("exclusions", {}).values())
     bump(res, "explicit_block_exclusions", explicit)
     bump(res, "generated_exclusions_seen", max(0, len(obs["excl_pairs"]) - explicit))
+    bump(res, "explicit_atom_id_links", ref["stats"].get("explicit_links", 0))
+    if len(used) >= 3:
+        bump(res, "three_level_cases")
     note(res, "nrexcl_sets", used)
     w = None
     for key, msg, _ in PC.exclusion_diffs(ref, obs, ev["renum"])[:3]:
@@ -74,4 +77,5 @@ def _add_block_exclusions(rng, case):
             x, y = rng.sample(range(len(b["atoms"])), 2)
             b["inter"].append({"sec": "exclusions", "atoms": [x, y], "params": [], "meta": {}})
     blocks = case["spec"]["blocks"]
-    case["files"] = [("case.ff", "\n".join(FF.render_blocks_ff(blocks) + FF.render_links_ff(case["ff_links"])) + "\n")]
+    case["files"] = [("case.ff", "\n".join(FF.render_blocks_ff(blocks) + FF.render_links_ff(case["ff_links"])) + "\n" +
+                      case.get("ff_extra", ""))]
